@@ -363,6 +363,9 @@ def main():
             known_hits.setdefault(hit["sig"], []).append(i)
         else:
             new_viol.append(i)
+    # a mismatch on a case that is a listed finding is explained by that finding
+    known_idx = {i for v in known_hits.values() for i in v}
+    mm = [i for i in mm if i not in known_idx]
     for k in kf:
         state = f"reproduced on {len(known_hits[k['sig']])} case(s) this run" if k["sig"] in known_hits else "listed"
         print(f"KNOWN-FINDING: property={pid} {k['what']} [{k['sig']}; {state}]")
